@@ -192,9 +192,14 @@ class Union():
         labels = np.argmax(p, axis=1)
         # If one of the clusters has less than n_points_min members, re-assign
         # the most likely members from the larger cluster to the smaller one.
-        if not np.all(np.bincount(labels) >= self.n_points_min):
-            label = np.argmin(np.bincount(labels))
-            labels[np.argsort(-p[:, label])[:self.n_points_min]] = label
+        counts = np.bincount(labels, minlength=2)
+        if not np.all(counts >= self.n_points_min):
+            label = np.argmin(counts)
+            # Only move as many points as are missing and only take them from
+            # the larger cluster.
+            idx = np.flatnonzero(labels != label)
+            n_move = self.n_points_min - counts[label]
+            labels[idx[np.argsort(-p[idx, label])[:n_move]]] = label
 
         new_bounds = []
         points = self.points_bounds[index]
